@@ -120,8 +120,10 @@ prop(
     design_ref="DESIGN.md section 3, C09",
     groups=[(["./pipeline"], r"^(\(\*RetriableBatcher\)\.Out|\(\*Batch\)\.reset|\(\*Router\)\.(Stop|Fail|IsDeadQueueAvailable|Start))$"),
             (["./fd"], r"^\(\*FileD\)\.getStaticInfo$"),
-            (["./plugin/output/elasticsearch", "./pipeline"], r"^\(\*Plugin\)\.(out|Start|Start\$1)$")],
-    canaries=[("./pipeline", "replay/C09/zz_replay_c09_test.go", "TestVerifReplayC09"),
+            (["./plugin/output/elasticsearch", "./pipeline"], r"^\(\*Plugin\)\.(out|Start|Start\$1)$"),
+            (["./plugin/output/gelf"], r"^\(\*Plugin\)\.(maintenance|out)$")],
+    canaries=[("./plugin/output/gelf", "replay/C09/zz_gelf_maintenance_nil_client_test.go", "TestVerifGelfMaintenanceWithoutClient"),
+              ("./pipeline", "replay/C09/zz_replay_c09_test.go", "TestVerifReplayC09"),
               ("./pipeline", "replay/C09/zz_dq_self_feedback_test.go", "TestVerifDeadQueueSelfFeedback"),
               ("./fd", "replay/C09/zz_dq_config_shared_test.go", "TestVerifDeadQueueConfigSharedAcrossPipelines")],
     claim=(
@@ -342,10 +344,10 @@ prop(
             (["./plugin/output/elasticsearch"], r"^(\(\*Plugin\)\.(sendSplit|appendIndexName|appendEvent|out|out\$1|Start|Start\$1)|appendEscaped)$"),
             (["./plugin/output/http", "./pipeline"], r"^(\(\*Plugin\)\.(sendSplit|out|out\$1)|\(\*(Raw|JSON)Encoder\)\.Encode)$"),
             (["./plugin/output/kafka", "./pipeline"], r"^\(\*Plugin\)\.(out|out\$1)$"),
-            (["./plugin/output/gelf"], r"^\(\*Plugin\)\.(formatExtraField|makeTimestampField)$"),
+            (["./plugin/output/gelf"], r"^\(\*Plugin\)\.(formatExtraField|makeTimestampField|out|out\$1|formatEvent|makeExtraFields|makeBaseField|makeLevelField|isBlank)$"),
             (["./plugin/output/splunk"], r"^(\(\*Plugin\)\.(out|out\$1)|parseSplunkError)$"),
             (["./plugin/output/loki"], r"^\(\*Plugin\)\.(out|out\$1|send|isUnixNanoFormat|parseLabels|getCustomHeaders)$"),
-            (["./plugin/output/file"], r"^\(\*Plugin\)\.createNew$")],
+            (["./plugin/output/file"], r"^\(\*Plugin\)\.(createNew|out|out\$1|write|sealUp|rename|setNextSealUpTime)$")],
     canaries=[("./plugin/output/http", "replay/C19/zz_raw_encoder_test.go", "TestVerifRawEncoderKeepsEarlierEvents"),
               ("./plugin/output/gelf", "replay/C19/zz_gelf_inf_timestamp_test.go", "TestVerifGelfTimestampIsJSONNumber"),
               ("./plugin/output/elasticsearch", "replay/C19/zz_replay_c19_test.go", "TestVerifReplayC19IndexName"),
@@ -361,6 +363,9 @@ prop(
         "GELF: every byte formatExtraField appends to an extra-field name is an ASCII letter, digit, '_', '-' or '.', for every event key. "
         "GELF makeTimestampField writes a finite number. ES appendIndexName passes every value read from the event through appendEscaped (ghost counters), and appendEscaped appends only bytes >= 0x20, "
         "each appended quote directly behind an appended backslash, the buffer before it unchanged (quantified loop invariant; backslash parity not stated). "
+        "GELF out: payload and name buffer start empty per batch, each deliverable event is formatted once, encoded once and followed by one zero byte, one send of exactly the payload after the walk, nil only after an error-free send; "
+        "formatEvent applies the field rules once each in dependency order (extra fields renamed once to '_'+name via formatExtraField, host / short_message / full_message renaming with the configured defaults, blank short_message -> default, level mapping with unknown -> 6). "
+        "File out: payload starts empty per batch, each event encoded once and followed by one newline, one Write of exactly the buffer under the read lock (returns only if the whole buffer was written); sealUp: rename, swap under the write lock, close the replaced file afterwards. "
         "Splunk out: the worker buffer is restarted, the batch handed in is walked once, one POST whose body is exactly the buffer as the walk left it, nil only if accepted / 400 / nothing to send; parseSplunkError: error mapping of the HEC answer. "
         "Loki: the callback adds one array element per deliverable event and fills it with a private copy of the event (never sharing nodes with it: guard clause; repaired defect), out walks the batch once and sends once on the root it spawned, "
         "send appends exactly one value line per message in order (timestamp and text from that message's configured fields, k-th encoding is of message k), one stream under the plugin's labels, one application/json POST of exactly the marshalled bytes, nil iff answered 204; "
